@@ -105,3 +105,12 @@ def run(ctx):
         for _ in range(3):
             I = gen_interp(ctx.rng, t, total=False, in_bounds=ctx.rng.random() < 0.8)
             do_case(ctx, {"ast": a, "I": {k: list(v) for k, v in I.items()}})
+        if ctx.rng.random() < 0.3:
+            # a leaf DECLARED constant and interpreted otherwise
+            v = constant_leaf_variant(ctx.rng, a, t)
+            if v is not None:
+                a2, t2, name, entry = v
+                I = gen_interp(ctx.rng, t2, total=False, in_bounds=True)
+                I[name] = entry
+                ctx.tags["constant-leaf-interpreted-otherwise"] += 1
+                do_case(ctx, {"ast": a2, "I": {k: list(v_) for k, v_ in I.items()}})
